@@ -116,7 +116,8 @@ def part_frames(ctx) -> None:
                 ctx.violate("C02|Command|reparse-differs", "re-parsing the printed command differs", frame)
         # (b) Packet, all constructors
         r = gen.rssi(rng)
-        note = rng.choice(("", "", " # a comment", "  # {\"hint\": true}", " < a parser hint", " # x # y"))
+        # format: packet[ < parser-hint][ * evofw3-err_msg][ # comment]; a comment is free text (may hold * < #)
+        note = rng.choice(("", "", " # a comment", "  # {\"hint\": true}", " < a parser hint", " # x # y", " # 5 * 7 = 35", " # a < b", " # *", " < hint # comment * x"))
         line = f"{r} {frame}{note}"
         now = dt(2024, 3, 1, 12, 0, 0, i % 1000000)
         for how in ("port", "file", "dict"):
@@ -129,6 +130,18 @@ def part_frames(ctx) -> None:
                     pkt = Packet.from_dict(now.isoformat(timespec="microseconds"), line)
             except (exc.PacketInvalid, ValueError):
                 ctx.count("pkt.refused")
+                if note.lstrip()[:1] in ("#", "<"):  # a comment / hint is not part of the frame: it cannot make it invalid
+                    try:
+                        bare = f"{r} {frame}"
+                        Packet.from_port(now, bare) if how == "port" else Packet.from_file(now.isoformat(timespec="microseconds"), bare) if how == "file" else Packet.from_dict(now.isoformat(timespec="microseconds"), bare)
+                    except (exc.PacketInvalid, ValueError):
+                        pass
+                    else:
+                        ctx.violate(
+                            f"C02|Packet.from_{how}|annotation-changes-acceptance",
+                            "a structurally valid frame is accepted on its own but refused when a comment or parser hint follows it",
+                            {"line": line},
+                        )
                 continue
             ctx.count("pkt.frames")
             ctx.seen(f"pkt|{how}|{r if r in ('---', '...') else 'ddd'}|{note[:3]}|" + sig)
@@ -274,7 +287,7 @@ async def log_session(loop: vloop.VirtualLoop, ctx, tmpdir: str, idx: int) -> No
             elif kind < 0.14:
                 note = " * Checksum error"
             elif kind < 0.2:
-                note = " # evofw3 note"
+                note = rng.choice((" # evofw3 note", " # gain * 2", " # a < b # c", " # *"))
             same_read = rng.random() < 0.25
             line = f"{r} {body}{note}"
             sent.append(line)
